@@ -231,7 +231,19 @@ impl MarkdownWriter {
                         // an inline tag ("<br>" breaks a line inside a cell) is written as it is
                         events.push(Event::InlineHtml(text.into()));
                     } else {
-                        events.push(Event::Text(text.into()));
+                        // every bracket starts a piece of its own: the event writer escapes
+                        // one only at the start of a piece, and a bare "]" in a link's text
+                        // (a title like "[WIP] Refactor") would end the text early
+                        let mut piece = String::new();
+                        for c in text.chars() {
+                            if (c == '[' || c == ']') && !piece.is_empty() {
+                                events.push(Event::Text(std::mem::take(&mut piece).into()));
+                            }
+                            piece.push(c);
+                        }
+                        if !piece.is_empty() {
+                            events.push(Event::Text(piece.into()));
+                        }
                     }
                 }
                 GraphInline::Strikeout(vec) => {
